@@ -21,12 +21,17 @@ fn render_conf(c: &AisleConf) -> String {
     out.join(" ")
 }
 
-fn render_err(e: &AisleConfError) -> String {
+/// the two `Parse` errors are told apart by WHERE they point (the message text is presentation): a bad category name is
+/// the text between `[` and `]`, a line outside any category is a whole line
+fn parse_err_kind(input: &str, span: &cooklang::Span) -> &'static str {
+    let b = input.as_bytes();
+    if span.start() > 0 && b.get(span.start() - 1) == Some(&b'[') && b.get(span.end()) == Some(&b']') { "invalid_category" } else { "expected_category" }
+}
+
+fn render_err(e: &AisleConfError, input: &str) -> String {
     match e {
-        AisleConfError::Parse { span, message } => {
-            let kind = if message.starts_with("Invalid category") { "invalid_category".to_string() }
-                else if message.starts_with("Expected category") { "expected_category".to_string() }
-                else { format!("other:{}", message.replace(' ', "_")) };
+        AisleConfError::Parse { span, .. } => {
+            let kind = parse_err_kind(input, span);
             format!("err {kind} {} {}", span.start(), span.end())
         }
         AisleConfError::DuplicateCategory { name, first_span, second_span } =>
@@ -129,7 +134,7 @@ fn oracle_ok(ctx: &mut Ctx, input: &str, c: &AisleConf) {
         let mut buf = Vec::new();
         aisle::write(c, &mut buf).map_err(|e| e.to_string())?;
         let text = String::from_utf8(buf).map_err(|e| e.to_string())?;
-        let again = match aisle::parse(&text) { Ok(c2) => if &c2 == c && c2.categories == c.categories { "same".to_string() } else { format!("diff: {}", render_conf(&c2)) }, Err(e) => format!("err: {}", render_err(&e)) };
+        let again = match aisle::parse(&text) { Ok(c2) => if &c2 == c && c2.categories == c.categories { "same".to_string() } else { format!("diff: {}", render_conf(&c2)) }, Err(e) => format!("err: {}", render_err(&e, &text)) };
         Ok::<(String, String), String>((text, again))
     });
     let rt_reply = match rt {
@@ -187,7 +192,7 @@ pub fn one(ctx: &mut Ctx, input: &str, max_lookup_cases: usize) {
         }
         Ok(Err(e)) => {
             let (kind, spans) = match &e {
-                AisleConfError::Parse { span, message } => (if message.starts_with("Invalid") { "invalid_category" } else { "expected_category" }, vec![*span]),
+                AisleConfError::Parse { span, .. } => (parse_err_kind(input, span), vec![*span]),
                 AisleConfError::DuplicateCategory { first_span, second_span, .. } => ("dup_category", vec![*first_span, *second_span]),
                 AisleConfError::DuplicateIngredient { first_span, second_span, .. } => ("dup_ingredient", vec![*first_span, *second_span]),
             };
@@ -199,7 +204,7 @@ pub fn one(ctx: &mut Ctx, input: &str, max_lookup_cases: usize) {
                     ctx.oracle_fail(desc.clone(), format!("{kind}: span {}..{} not on char boundaries", s.start(), s.end()), "c11:span_boundary".into());
                 }
             }
-            ctx.case(op, render_err(&e), true, desc);
+            ctx.case(op, render_err(&e, input), true, desc);
         }
         Ok(Ok(c)) => {
             let ncat = c.categories.len();
